@@ -31,11 +31,15 @@ class LockEngine(Engine):
         self.callargs = {}
         self.track_writes = ()
         self.value_token_fields = ()
+        self.timed_p_outcomes = ()
+        self.entry_opaque = ()
         Engine.__init__(self, mod, [], opaque={}, inline_filter=self._inline)
         self.wrappers = util.cas_wrappers(mod)
     def memoizable(self, callee):
         return False
     def _inline(self, callee):
+        if callee in self.entry_opaque:
+            return False          # judged in its own entry; here only its being balanced on the locks matters
         if callee in self.wrappers:
             return True
         f = self.mod.func(callee)
@@ -97,21 +101,35 @@ class LockEngine(Engine):
             st.ghost[('waited', o)] = 1
             return [(st, TOP)]
         if callee in PURE_SIGN:
-            # a pure three-way comparison: evaluated again with the same operands in the same activation (the idiom
-            # `if (cmp > 0 && x) ... else if (cmp > 0)`), it gives the same result - no infeasible "false, then true" path.
-            # Only the most recent evaluation per activation is remembered, so the state space stays small.
+            # a pure three-way comparison: evaluated again on the same values it gives the same result - no infeasible "false, then true"
+            # path for the idiom `if (cmp > 0 && x) ... else if (cmp > 0)`, nor for a helper that tests a note time and returns it to a caller
+            # that tests it again.  Operands are identified by value where they have one (constants, opaque time tokens), otherwise by SSA
+            # name within one activation.  Only the most recent evaluation per slot is remembered, so the state space stays small.
             fr = st.top
-            slot = ('pure', callee, fr.fn.name, fr.depth)
             def opkey(a, o):
                 if isinstance(a, int):
                     return a
+                if isinstance(a, Ptr) and not a.path and a.base.startswith('tok:'):
+                    return a.base
                 d = fr.fn.imap.get(o) if isinstance(o, str) else None
                 if d is not None and d.op == 'load' and isinstance(d.ops[0], dict):
                     return 'load ' + repr(d.ops[0])          # a load from a constant address (e.g. a field of nsync_time_zero)
-                return repr(o)
-            akey = tuple(opkey(a, o) for a, o in zip(args, inst.ops))
+                return None
+            keys = [opkey(a, o) for a, o in zip(args, inst.ops)]
+            # value-identified entries are kept only for the "is it notified / ready yet" tests - a time compared with the constant zero time -
+            # which are the ones repeated across helper boundaries; everything else is remembered per activation only
+            if all(k is not None for k in keys) and len(keys) == 4 and keys[2] == 0 and keys[3] == 0:
+                akey = tuple(keys)
+                slot = ('pure', callee, '*', akey)       # value-identified: valid across activations (a few most recent ones are kept)
+                old = [k2 for k2 in st.ghost if isinstance(k2, tuple) and len(k2) == 4 and k2[0] == 'pure' and k2[2] == '*' and k2 != slot]
+                for k2 in old[:-1]:          # dict order = insertion order: the oldest go (two are kept in all)
+                    del st.ghost[k2]
+            else:
+                slot = ('pure', callee, fr.fn.name, fr.depth)
+                akey = tuple(k if k is not None else repr(o) for k, o in zip(keys, inst.ops))
             cached = st.ghost.get(slot)
             if isinstance(cached, tuple) and len(cached) == 2 and cached[0] == 'agg' and cached[1][0] == akey and is_expr(cached[1][1]) and cached[1][1][1] in st.S:
+                st.ghost[slot] = st.ghost.pop(slot)          # most recently used
                 return [(st, cached[1][1])]
             sym = 'cmp:%s:%s:%d' % (fr.fn.name, inst.id, fr.depth)
             self.kill_sym(st, sym)
@@ -134,10 +152,19 @@ class LockEngine(Engine):
         if callee in BLOCKING or callee == 'nsync_mu_semaphore_v':
             self.record(Record('prim', inst, st, callee=callee, args=args, held=dict(self.held(st)), entry=self.entry_name),
                         ('prim', inst.fn.name, inst.id, st.stack(), tuple(sorted(st.ghost.items(), key=repr))))
+            if callee == 'nsync_mu_semaphore_p_with_deadline' and self.timed_p_outcomes:
+                # C05.R2: which deadline the sleep was given (the caller's own, passed to the entry as opaque tokens, or another one), and its
+                # outcome as a symbolic value {0, ETIMEDOUT}
+                own = len(args) >= 3 and isinstance(args[1], Ptr) and args[1].base == 'tok:dl_s' and isinstance(args[2], Ptr) and args[2].base == 'tok:dl_ns'
+                st.ghost[('slept_with',)] = 'deadline' if own else 'other'
+                sym = 'p:%s:%s' % (inst.fn.name, inst.id)
+                self.kill_sym(st, sym)
+                st.S[sym] = frozenset(self.timed_p_outcomes)
+                return [(st, ('e', sym, ('s',)))]
         return None
     def on_return(self, st, fn, val):
         d = st.top.depth
-        for k in [k for k in st.ghost if isinstance(k, tuple) and k and k[0] == 'pure' and k[2] == fn.name and k[3] == d]:
+        for k in [k for k in st.ghost if isinstance(k, tuple) and k and k[0] == 'pure' and k[2] == fn.name and k[3] == d and k[2] != '*']:
             del st.ghost[k]
     def unknown_ret(self, st, f, inst):
         v = Engine.unknown_ret(self, st, f, inst)
@@ -164,7 +191,17 @@ class LockEngine(Engine):
         if isinstance(p, Ptr) and p.path and p.path[-1][0] == 'f' and p.path[-1][1] in self.ready_fields:
             self.record(Record('valcas', inst, st, field=p.path[-1][1], obj=Ptr(p.base, p.path[:-1]), expected=E, new=N, held=dict(self.held(st)), entry=self.entry_name),
                         ('valcas', inst.fn.name, inst.id, st.stack(), repr(E), repr(N)))
+    STABLE_TIME_FIELDS = ('nsync_note_s_.expiry_time',)      # written by the constructor only (before the note is published)
+    def _time_token(self, st, f, inst, p):
+        """a 64-bit member of a note's expiry time: named after the object and field (the field never changes after construction, so every read
+        of it yields the same value), so that a time read in a helper and compared again by its caller is recognised as the same value"""
+        if inst.ty == 'i64' and any(x[0] == 'f' and x[1].startswith(self.STABLE_TIME_FIELDS) for x in p.path):
+            return Ptr('tok:fld:%s:%s' % (p.base, '/'.join(str(x[1]) for x in p.path)), ())
+        return None
     def on_int_load(self, st, f, inst, p):
+        tt = self._time_token(st, f, inst, p)
+        if tt is not None:
+            return tt
         # the disconnecting count of a note, read under that note's mutex: abstracted to {0, non-zero} so that tests of it are path-sensitive
         if p.path and p.path[-1][0] == 'f' and p.path[-1][1].endswith('.disconnecting'):
             obj = Ptr(p.base, p.path[:-1])
